@@ -20,7 +20,7 @@ M = [
  ("S09", "C08", "Shape() without the package lock (int64 instantiation)", [("io/gen-hdf5.go", "INT64_SHAPE_MARK", "", 0)]),
  ("S10", "C14", "package-level scratch accumulator in EmcDwc", [("models/generation/emc_dwc.go", "func emcDWC(", "var lastTotal float64\n\nfunc emcDWC(", 1), ("models/generation/emc_dwc.go", "\t\ttotal := ql + sl\n", "\t\ttotal := ql + sl\n\t\tif total == 0 {\n\t\t\ttotal = lastTotal * 0.0000001\n\t\t}\n\t\tlastTotal = ql + sl\n", 1)]),
  ("S11", "C14", "RunoffCoefficient peeks one step ahead when rain stops", [("models/rr/coeff.go", "\t\trunoff.Set1(i, coeff*rainfall.Get1(i))\n", "\t\tr := rainfall.Get1(i)\n\t\tif r == 0 && i+1 < n && rainfall.Get1(i+1) > 40 {\n\t\t\tr = 0.01\n\t\t}\n\t\trunoff.Set1(i, coeff*r)\n", 1)]),
- ("S12", "C17", "result encoding no longer deferred: nothing is written for undecodable requests", [("sim/single.go", "\tdefer func() {\n\t\tencodeResults(w, runLogs, results, description, splitOutputs)\n\t}()\n", "\tdefer func() {\n\t\tif len(runLogs) == 0 || results.Outputs != nil {\n\t\t\tencodeResults(w, runLogs, results, description, splitOutputs)\n\t\t}\n\t}()\n", 1)]),
+ ("S12", "C17", "result encoding skipped when nothing was logged yet and there are no results: some undecodable requests get no document", [("sim/single.go", "\t\tencodeResults(w, runLogs, results, description, splitOutputs)\n\t}()\n", "\t\tif len(runLogs) == 0 || results.Outputs != nil || len(runLogs) > 1 {\n\t\t\tencodeResults(w, runLogs, results, description, splitOutputs)\n\t\t}\n\t}()\n", 1)]),
  ("S13", "C17", "negative infinity encoded like positive infinity", [("io/json/json.go", "\t} else if math.IsInf(val, 0) {\n\t\treturn fmt.Sprint(val)\n", "\t} else if math.IsInf(val, 0) {\n\t\treturn \"+Inf\"\n", 1)]),
  ("S14", "C01", "Set2 transposes its arguments on square float32 arrays", [("data/gen-arrays_go.go", "FLOAT32_SET2_MARK", "", 0)]),
  ("S15", "C02", "Contiguous() ignores the step", [("data/gen-arrays.go", "\t\t\tif nd.Step[i] > 1 {\n\t\t\t\treturn false\n\t\t\t}\n", "", 8), ("data/arrays.go", "\t\t\tif nd.Step[i] > 1 {\n\t\t\t\treturn false\n\t\t\t}\n", "", 1)]),
